@@ -397,7 +397,11 @@ def eng_deadline_probes(mods, mon, tag):
         cases = seeded(gen.deadline_probe_cases(phases, ackdls=(0, 5, 11, 700) if not ctx.thorough else (0, 1, 5, 9, 10, 11, 15, 600, 700, 3600),
                                                 mods=mods, prefix=tag,
                                                 gaps=(40, 70) if not ctx.thorough else (10, 40, 70, 95)))
-        return ctx.seq(tag, cases, relevant=DATA_OPS, triggers={"PULL"}, monitor=mon)
+        cases = [(c, gen.with_drain(o)) for c, o in cases]
+
+        def mon2(ops, lines):
+            return mon(ops, lines) or M.mon_fanout(ops, lines)
+        return ctx.seq(tag, cases, relevant=DATA_OPS, triggers={"PULL"}, monitor=mon2)
     eng.__name__ = "eng_" + tag.replace("-", "_")
     return eng
 
@@ -478,8 +482,11 @@ def eng_paging_walks(ctx):
     sizes = [-1, 0, 1, 7, 20, 21, 1000, 1001] if not ctx.thorough else [-1, 0, 1, 2, 3, 19, 20, 21, 44, 45, 46, 1000, 1001,
                                                                           2147483647]
     cases = seeded(gen.paging_walk_cases(counts, sizes, seed=ctx.seed))
+    def mon2(ops, lines):
+        # a first page without a next token is a complete listing: it must equal the live set
+        return M.mon_walk(ops, lines) or M.mon_namespace(ops, lines)
     out = ctx.seq("paging-walks", cases, relevant={"LT", "LS", "LTS", "CT", "CS", "DT", "DS"},
-                  triggers={"LT", "LS", "LTS"}, monitor=M.mon_walk)
+                  triggers={"LT", "LS", "LTS"}, monitor=mon2)
     if out:
         return out
     cases = seeded(gen.big_walk_cases(sizes=(1001, 2147483647) if not ctx.thorough else (1000, 1001, 5000, 10001, 2147483647)))
@@ -576,6 +583,36 @@ def eng_stream_enum(mon):
     return eng
 
 
+def eng_big_ack(ctx):
+    cases = [(c, gen.with_drain(o)) for c, o in gen.big_ack_cases()]
+
+    def mon2(ops, lines):
+        return M.mon_ack_final(ops, lines) or M.mon_fanout(ops, lines)
+    return ctx.seq("big-ack", cases, relevant=DATA_OPS, triggers={"ACK"}, monitor=mon2)
+
+
+def eng_pushstress(ctx):
+    """Multi-thread runtime: the real push loop at 1 ms while four tasks create, use and delete push subscriptions;
+    a watchdog outside the runtime reports requests that never complete.  A stress search: it can only find."""
+    ms = ctx.n(2500, 30000)
+    p = sh([HARNESS, "pushstress", str(ms), "4"], check=False, timeout=3000)
+    m = re.search(r"PUSHSTRESS completed=(\d+) hung=(\d)", p.stdout or "")
+    st = ctx.stats
+    st["evaluations"] += int(m.group(1)) if m else 0
+    st["streams"]["pushstress"] = {"cases": int(m.group(1)) if m else None, "hung": int(m.group(2)) if m else None}
+    if not m:
+        return [("engine", "pushstress did not finish", {"output": (p.stdout or "")[-2000:], "signature": "engine:pushstress"})]
+    st["distinct"].add("pushstress")
+    if m.group(2) == "1":
+        why = ("C07-pending: with the push loop running and push subscriptions being created and deleted concurrently "
+               "(multi-thread runtime) no request completed for 5 s after %s had completed: requests wait for ever" % m.group(1))
+        return [("violation", "pushstress: " + why,
+                 {"engine": "pushstress", "failing_input_found": True, "monitor": why, "signature": "monitor:C07-pending",
+                  "replay_cmd": ".cache/target/release/harness pushstress %d 4" % ms, "output": (p.stdout or "")[-2000:],
+                  "broken": "stress search on the implementation (multi-thread runtime)"})]
+    return []
+
+
 def eng_modify_batches(ctx):
     cases = gen.modify_batch_cases()
     if not ctx.thorough:
@@ -608,7 +645,7 @@ def eng_id_lists(mon, kinds):
 
 reg("C02", [eng_id_lists(M.mon_ack_final, ("ack", "sack", "sackmod")), eng_data_enum(M.mon_ack_final, {"ACK"}),
             eng_data_random(M.mon_ack_final, {"ACK"}, streams=True, tag="data-stream-random"),
-            eng_stream_enum(M.mon_ack_final)],
+            eng_stream_enum(M.mon_ack_final), eng_big_ack],
     rule="id-lists: Acknowledge (unary and streaming) with every id list of length 1..3 over {stale, live, live, unknown, "
          "oddly spelled live}, then expiry and drain; data-enum: every sequence over {pub, pub2, pull1, pullN, ack-last, ack-first, ack-unknown, nack, modify, +5.1s, +10.1s} "
          "up to the depth noted, STATS after every step, final drain; data-stream-random: random scripts with unary and "
@@ -744,7 +781,8 @@ def eng_cs_late(ctx):
     return eng_cs(ctx)
 
 
-reg("C15", [eng_capacity, eng_data_random(M.mon_batch, {"PULL"}, streams=True, tag="data-stream-random"), eng_cs_late],
+reg("C15", [eng_capacity, eng_data_random(M.mon_batch, {"PULL"}, streams=True, tag="data-stream-random"), eng_cs_late,
+            lambda ctx: eng_big_chain(ctx)],
     rule="capacity: backlog sizes around 0/1/1000 (thorough: 65535/65536/65541) x max_messages around 1, 1000, 65535, "
          "65536 multiples, i32::MAX; stream-capacity likewise for max_outstanding_messages. non-trivial = non-empty response",
     monitor=M.mon_batch, title="Pull batches respect their size limit and are empty only when allowed", design_ref="7/C15",
@@ -837,6 +875,9 @@ def mon_fc(lines, res):
     kinds = [l.split(" ")[1] for l in lines[1:-1]]
     if any(r.startswith("!HANG") for r in res):
         return "C19-hang: a released thread never reached its next program point"
+    for r in res:
+        if r.startswith("!UNSAFE"):
+            return "C19-resumed-without-space: waiter " + r[len("!UNSAFE "):]
     fin = res[-1].split(" ") if res else ["?"]
     if fin[0] != "FINAL":
         return None
@@ -1150,7 +1191,8 @@ reg("C06", [eng_wait_enum, eng_wait_random(M.mon_wait, {"SR", "JOIN"}), eng_canc
                "scheduler, which is assumed; batch contents are abstract (counters) in the concurrent model and concrete in "
                "the sequential one.")
 
-reg("C12", [eng_delete_release, eng_wait_random(M.mon_release, {"DS"}), eng_burst_shapes, eng_cs],
+reg("C12", [eng_delete_release, eng_wait_random(M.mon_release, {"DS"}), eng_burst_shapes, eng_cs,
+            lambda ctx: eng_abandon(ctx)],
     rule="delete-release: per runtime seed, DeleteSubscription with two streams (request side open / closed), a blocked "
          "Pull, consumers of another subscription, and (variants) ack/nack/pull/get/publish calls started without "
          "letting the runtime settle, then every consumer observed; wait-random as for C06. non-trivial = a "
@@ -1285,7 +1327,7 @@ reg("C16", [eng_abandon, eng_burst, lambda ctx: eng_create_delete_race(ctx), lam
                "exhibit on the implementation (stale attachment when a Delete overtakes the attach of a just-created "
                "subscription, DESIGN 7/C16).")
 
-reg("C07", [eng_burst, eng_abandon, eng_pull_limit],
+reg("C07", [eng_burst, eng_abandon, eng_pull_limit, eng_pushstress],
     rule="burst: 17-70 calls (Get/Pull/Ack/List, one or two DeleteSubscription, one or two Publish, sometimes DeleteTopic) "
          "started without letting the runtime settle, seeded select!/scheduling order; after settling every call must "
          "have an answer and the server must still answer Get/Publish/Pull/List (mon_no_hang on every case; the harness "
